@@ -25,9 +25,10 @@ def blob(key: bytes, plain: bytes, mac_name: str, iv: bytes) -> bytes:
 
 
 def pair_text(passphrase: str, data_key: bytes, *, cipher="AES-256", mac="HMAC-SHA-1", kdf="PBKDF2-HMAC-SHA-1", rounds=1000,
-              salt=b"\x01" * 16, iv=b"\x02" * 16, phrase_id="JTHVQF8/BHU=", data_cipher="AES-256", tamper=None):
+              salt=b"\x01" * 16, iv=b"\x02" * 16, phrase_id="JTHVQF8/BHU=", data_cipher="AES-256", tamper=None, escape_inner=True):
     wrap_key = hashlib.pbkdf2_hmac(KDFS[kdf], passphrase.encode(), salt, rounds, KEYLEN[cipher])
-    inner = f"type=key:cipher={esc(data_cipher)}:key={esc(base64.b64encode(data_key).decode())}".encode()
+    e_in = esc if escape_inner else (lambda x: x)
+    inner = f"type=key:cipher={e_in(data_cipher)}:key={e_in(base64.b64encode(data_key).decode())}".encode()
     b = bytearray(blob(wrap_key, inner, mac, iv))
     if tamper:
         tamper(b)
